@@ -92,6 +92,7 @@ type task struct {
 	explFin   int32 // explicit successor on finish (0 = none)
 	opSteps   uint64
 	napUntil  uint64
+	gen       uint64
 }
 
 // Stats is what one simulated run measured.
@@ -113,6 +114,8 @@ type Stats struct {
 	SyncOps         uint64
 	StarveGuards    uint64
 	Naps            uint64
+	ChanOps         uint64
+	LeakedTasks     uint64
 	Fingerprint     uint64
 	PairFP          []uint64 // hashes of (preempted site, resumed site)
 	Truncated       bool
@@ -139,6 +142,10 @@ var (
 	changeAt [8]uint64
 	nchange  int
 	lowPrio  int32
+	runGen   uint64
+
+	clientsLeft int32
+	graceSteps  uint64
 
 	opBudget   uint64 = 4_000_000
 	softBudget uint64 = 100_000
@@ -199,6 +206,18 @@ func Y(site uint32) {
 	t.lstep++
 	t.opSteps++
 	t.lastSite = site
+	if clientsLeft == 0 {
+		// only goroutines the library itself started are still running; let them
+		// finish within a grace budget, then end the run (a background worker is
+		// not a C19 matter)
+		graceSteps++
+		if graceSteps > 200_000 {
+			stats.LeakedTasks++
+			allDone = true
+			panic(abortSentinel{})
+		}
+		return
+	}
 	if t.opSteps > softBudget {
 		if t.opSteps > opBudget {
 			abort("no-progress", noProgressDetail(t, site))
@@ -258,13 +277,14 @@ func record(t *task, site uint32, to int32, kind uint8) {
 
 //go:norace
 func waitTurn(me int32) {
-	for cur != me {
-		if aborted {
+	gen := tasks[me].gen
+	for cur != me || runGen != gen {
+		if aborted || allDone || runGen != gen {
 			panic(abortSentinel{})
 		}
 		runtime.Gosched()
 	}
-	if aborted {
+	if aborted || allDone {
 		panic(abortSentinel{})
 	}
 }
@@ -529,12 +549,31 @@ func Block(addr unsafe.Pointer) {
 		to = pick(cur)
 	}
 	if to < 0 {
-		abort("deadlock", deadlockDetail())
+		if clientsPending() {
+			abort("deadlock", deadlockDetail())
+		}
+		// only library-spawned goroutines are left and none can run: they are
+		// leaked, which C19 does not speak about. End the run normally.
+		stats.LeakedTasks++
+		allDone = true
+		panic(abortSentinel{})
 	}
 	record(t, t.lastSite, to, 2)
 	me := cur
 	cur = to
 	waitTurn(me)
+}
+
+// clientsPending reports whether any client task has not finished.
+//
+//go:norace
+func clientsPending() bool {
+	for i := int32(1); i < ntasks; i++ {
+		if tasks[i].client && tasks[i].state != stDone {
+			return true
+		}
+	}
+	return false
 }
 
 //go:norace
@@ -608,9 +647,12 @@ func NoteSync() {
 //go:norace
 func finish(me int32) {
 	t := &tasks[me]
+	if t.state != stDone && t.client {
+		clientsLeft--
+	}
 	t.state = stDone
 	t.inOp = false
-	if aborted {
+	if aborted || allDone {
 		return
 	}
 	var to int32
@@ -624,7 +666,11 @@ func finish(me int32) {
 		blocked := false
 		for i := int32(1); i < ntasks; i++ {
 			if tasks[i].state == stBlocked {
-				blocked = true
+				if tasks[i].client {
+					blocked = true
+				} else {
+					stats.LeakedTasks++
+				}
 			}
 		}
 		if blocked {
@@ -705,7 +751,7 @@ func spawn(client bool) int32 {
 		ntasks++
 	}
 	old := &tasks[id]
-	tasks[id] = task{state: stRunnable, client: client, prio: int32(rng.next() % 1000),
+	tasks[id] = task{state: stRunnable, client: client, prio: int32(rng.next() % 1000), gen: runGen,
 		expl: old.expl, explBlk: old.explBlk, explFin: old.explFin}
 	if !client {
 		stats.GoSpawns++
@@ -715,6 +761,7 @@ func spawn(client bool) int32 {
 
 //go:norace
 func reset(s Sched, f Faults) {
+	runGen++
 	on = false
 	aborted = false
 	allDone = false
@@ -754,6 +801,7 @@ func reset(s Sched, f Faults) {
 		nchange = d
 	}
 	resetPools()
+	resetChans()
 }
 
 //go:norace
@@ -785,6 +833,8 @@ func RunTasks(s Sched, f Faults, bodies []func()) (Stats, []Switch) {
 	for range bodies {
 		spawn(true)
 	}
+	clientsLeft = int32(len(bodies))
+	graceSteps = 0
 	first := start()
 	joinWG.Add(len(bodies))
 	for i, b := range bodies {
